@@ -477,6 +477,11 @@ def commandObs (st : St) (c : Cmd) : St × Verdict :=
         -- clearly below => must fail; clearly above => must succeed; in between either, but always consistent
         let limit := lim.toNat?.getD 0
         let full := c.nat "full" 0
+        -- a transient fault (the limit is lifted once the file has reached it) may or may not have cut a
+        -- write short: either the merge fails and leaves nothing, or it succeeds with the complete file
+        if c.getD "transient" "0" == "1" then
+          (st', .pred (fun g => g.startsWith "err:io file=0" || okPred g) ("err:io file=0 or " ++ okStr ++ " with the reference content digest"))
+        else
         if limit + 16 < full then (st, .pred (fun g => g.startsWith "err:io file=0") "err:io file=0")
         else if limit ≥ full + 16 then (st', .pred okPred okStr)
         else (st', .pred (fun g => g.startsWith "err:io file=0" || okPred g) ("err:io file=0 or " ++ okStr))
